@@ -558,3 +558,315 @@ REG.add(Contract(MS, "_model_to_sbml", "C10", [("cobra_model", TCustom(_empty_mo
                  modifies=lambda E: [("ghost", "ptab", lambda st: (fresh("ptab_k", W.RealMap[0]), fresh("ptab_v", W.RealMap[1])))],
                  note="restricted path: model without compartments / metabolites / genes / reactions / groups / _sbml"))
 M2S_KEYS = ["_model_to_sbml@default-parameters"]
+
+
+# ================================================================ (3) _parse_annotation_info / _parse_annotations
+# The regular expression is an ASSUMED function of the uri: URL_IDENTIFIERS_PATTERN.match(uri) is None unless re_matches(uri), else
+# a match object whose group(1) / group(2) are re_group1(uri) / re_group2(uri); str.isupper / str.lower are the uninterpreted
+# functions str_isupper / str_lower.
+RE_M = z3.Function("re_matches", Id, z3.BoolSort())
+RE_G1, RE_G2 = z3.Function("re_group1", Id, Id), z3.Function("re_group2", Id, Id)
+ISUPPER, LOWER = z3.Function("str_isupper", Id, z3.BoolSort()), z3.Function("str_lower", Id, Id)
+REG.classes["ReMatch"] = []
+
+
+def prov_t(u):
+    return z3.If(ISUPPER(RE_G1(u)), LOWER(RE_G1(u)), RE_G1(u))
+
+
+def ident_t(u):
+    return z3.If(ISUPPER(RE_G1(u)), unwrap(BD.sjoin([VStr(RE_G1(u)), ":", VStr(RE_G2(u))]), "id"), RE_G2(u))
+
+
+def _pi_global(eng, name):
+    if name == "URL_IDENTIFIERS_PATTERN":
+        return VOpaque("URL_IDENTIFIERS_PATTERN")
+    return None
+
+
+def _pi_call_method(eng, st, recv, name, pos, kw):
+    if isinstance(recv, VOpaque) and recv.what == "URL_IDENTIFIERS_PATTERN" and name == "match" and len(pos) == 1 and isinstance(pos[0], VStr):
+        outs = []
+        for ok, s in eng.branch(st, RE_M(pos[0].t)):
+            if ok:
+                s, m = alloc_obj(s, "ReMatch", {"attr:uri": pos[0]})
+                outs.append(("ok", s, m))
+            else:
+                outs.append(("ok", s, NONE))
+        return outs
+    if isinstance(recv, VObj) and recv.cls == "ReMatch" and name == "group" and len(pos) == 1 and isinstance(pos[0], VInt):
+        g = z3.simplify(pos[0].t).as_long()
+        u = st.objs[recv.oid]["attr:uri"].t
+        return [("ok", st, VStr({1: RE_G1, 2: RE_G2}[g](u)))]
+    if isinstance(recv, VStr) and name == "isupper" and not pos:
+        return [("ok", st, VBool(ISUPPER(recv.t)))]
+    if isinstance(recv, VStr) and name == "lower" and not pos:
+        return [("ok", st, VStr(LOWER(recv.t)))]
+    return None
+
+
+def _pi_getattr(eng, st, v, name):
+    if isinstance(v, VOpaque) and v.what == "URL_IDENTIFIERS_PATTERN" and name == "match":
+        return [("ok", st, VFunc("bound", v, name))]
+    if isinstance(v, VObj) and v.cls == "ReMatch" and name == "group":
+        return [("ok", st, VFunc("bound", v, name))]
+    return None
+
+
+PI_HOOKS = {"global": _pi_global, "call_method": _pi_call_method, "getattr": _pi_getattr, "fstring": BD.fstring_hook}
+
+
+def _pi_some_post(E):
+    r = E.res
+    if not (isinstance(r, VTuple) and len(r.items) == 2 and all(isinstance(x, (VStr, VConc)) for x in r.items)):
+        return z3.BoolVal(False)
+    u = E["uri"].t
+    return z3.And(unwrap(r.items[0], "id") == prov_t(u), unwrap(r.items[1], "id") == ident_t(u))
+
+
+_pi_none = Case("no-match", requires=lambda E: z3.Not(RE_M(E["uri"].t)), ensures=lambda E: z3.BoolVal(isinstance(E.res, VNone)))
+_pi_none.result = lambda eng, st, E: (st, NONE)
+_pi_some = Case("match", requires=lambda E: RE_M(E["uri"].t), ensures=_pi_some_post)
+_pi_some.result = lambda eng, st, E: (st, VTuple((VStr(prov_t(E["uri"].t)), VStr(ident_t(E["uri"].t)))))
+REG.add(Contract(MS, "_parse_annotation_info", "C10", [("uri", TStr())], [_pi_none, _pi_some], key="_parse_annotation_info",
+                 note="provider(uri) = lower(group1) when group1 is upper case, else group1; identifier(uri) = group1 + ':' + group2 "
+                      "when group1 is upper case, else group2"))
+
+# ---------------------------------------------------------------- _parse_annotations: the collection logic
+# The annotation dictionary (provider -> str | list of str) is modelled by ghost arrays (st.ghost["c10_ann"]): dom, isstr (the value
+# is a single string), sval (that string), llen / lelem (the list), plus auxiliary ghosts posn (position of an identifier in the
+# list of its provider) and wuri (the resource uri an identifier came from).  `x in <str>` is the uninterpreted SUBSTRING
+# predicate str_contains - not equality: a collection logic that tests `identifier in annotation[provider]` while the value is still
+# a string (seeded mutant) cannot be proved.
+SUBSTR = z3.Function("str_contains", Id, Id, z3.BoolSort())             # str_contains(haystack, needle)
+SBOSET = z3.Function("sbase_isSetSBOTerm", Ref, z3.BoolSort())
+SBOTERM = z3.Function("sbase_SBOTermID", Ref, Id)
+CVNONE = z3.Function("sbase_cvterms_is_None", Ref, z3.BoolSort())
+nCV = z3.Function("sbase_num_cvterms", Ref, I)
+cvS = z3.Function("sbase_cvterm_at", Ref, I, Ref)
+nRES = z3.Function("cvterm_num_resources", Ref, I)
+URI = z3.Function("cvterm_resource_uri", Ref, I, Id)
+IS_RES = z3.Function("is_resource_uri_of_parsed_sbase", Id, z3.BoolSort())
+REG.classes["CVTerm"] = []
+_ARR = {"dom": z3.ArraySort(Id, z3.BoolSort()), "isstr": z3.ArraySort(Id, z3.BoolSort()), "sval": z3.ArraySort(Id, Id),
+        "llen": z3.ArraySort(Id, I), "lelem": z3.ArraySort(Id, z3.ArraySort(I, Id)), "posn": z3.ArraySort(Id, z3.ArraySort(Id, I)),
+        "wuri": z3.ArraySort(Id, z3.ArraySort(Id, Id))}
+
+
+def ann(st):
+    g = st.ghost.get("c10_ann")
+    if g is None:
+        g = {"dom": z3.K(Id, z3.BoolVal(False))}
+        g.update({k: z3.Const("ann0_" + k, s) for k, s in _ARR.items() if k != "dom"})
+    return g
+
+
+def _ann_fresh(st):
+    return {k: fresh("ann_" + k, s) for k, s in _ARR.items()}
+
+
+def held(g, p, x):
+    """identifier x is held under provider p: it is the single string, or an element of the list (at its recorded position)"""
+    j = g["posn"][p][x]
+    return z3.If(g["isstr"][p], g["sval"][p] == x, z3.And(0 <= j, j < g["llen"][p], g["lelem"][p][j] == x))
+
+
+_assumed("SBase.isSetSBOTerm", _SB, "libsbml: whether the object has an SBO term (ghost sbase_isSetSBOTerm); no side effect",
+         lambda eng, st, E: (st, VBool(SBOSET(E["self"].t))))
+_assumed("SBase.getSBOTermID", _SB, "libsbml: the SBO term as a string 'SBO:nnnnnnn' (ghost sbase_SBOTermID); no side effect",
+         lambda eng, st, E: (st, VStr(SBOTERM(E["self"].t))))
+_cv_none = Case("None", requires=lambda E: CVNONE(E["self"].t))
+_cv_none.result = lambda eng, st, E: (st, NONE)
+_cv_list = Case("list", requires=lambda E: z3.Not(CVNONE(E["self"].t)))
+_cv_list.result = lambda eng, st, E: (st.assume(nCV(E["self"].t) >= 0),
+                                      VSeq(nCV(E["self"].t), (lambda x: lambda s, i: VRef(cvS(x, i), "CVTerm"))(E["self"].t), tag="cvterms"))
+REG.add(Contract("libsbml", "SBase.getCVTerms", "C10", _SB, [_cv_none, _cv_list], assumed=True, key="SBase.getCVTerms",
+                 note="libsbml: None, or the CV terms of the object as a sequence (sbase_num_cvterms, sbase_cvterm_at); no side effect"))
+_CV = [("self", TRef("CVTerm"))]
+_assumed("CVTerm.getNumResources", _CV, "libsbml: the number of resources of the CV term (an int >= 0 is not needed: range() of a "
+         "negative number is empty); no side effect", lambda eng, st, E: (st, VInt(nRES(E["self"].t))))
+_assumed("CVTerm.getResourceURI", _CV + [("k", TInt())],
+         "libsbml: the k-th resource uri of the CV term (ghost cvterm_resource_uri(cv, k)), a resource uri of the object being parsed "
+         "(ghost predicate is_resource_uri_of_parsed_sbase); no side effect",
+         lambda eng, st, E: (st, VStr(URI(E["self"].t, E["k"].t))),
+         ensures=lambda E: IS_RES(URI(E["self"].t, E["k"].t)))
+
+
+def _is_ann_dict(v):
+    return isinstance(v, VObj) and v.kind == "dict"
+
+
+def _key(v):
+    return unwrap(v, "id")
+
+
+def _pa_setitem(eng, st, obj, idx, val):
+    if not _is_ann_dict(obj):
+        return None
+    g, p = dict(ann(st)), _key(idx)
+    cur = st.ghost.get("c10_cur_uri")
+    if isinstance(val, (VStr, VConc)):
+        x = _key(val)
+        g["dom"], g["isstr"], g["sval"] = z3.Store(g["dom"], p, True), z3.Store(g["isstr"], p, True), z3.Store(g["sval"], p, x)
+        if cur is not None:
+            g["wuri"] = z3.Store(g["wuri"], p, z3.Store(g["wuri"][p], x, cur))
+        return [("ok", st.setghost("c10_ann", g), NONE)]
+    if isinstance(val, VFunc) and val.kind == "annlist":
+        xs = val.a                                  # the elements of the list display, in order
+        arr, pos_ = g["lelem"][p], g["posn"][p]
+        for n, x in enumerate(xs):
+            arr, pos_ = z3.Store(arr, n, x), z3.Store(pos_, x, n)
+        g["dom"], g["isstr"] = z3.Store(g["dom"], p, True), z3.Store(g["isstr"], p, False)
+        g["llen"], g["lelem"], g["posn"] = z3.Store(g["llen"], p, len(xs)), z3.Store(g["lelem"], p, arr), z3.Store(g["posn"], p, pos_)
+        return [("ok", st.setghost("c10_ann", g), NONE)]
+    raise Unsupported(f"annotation[...] = {val!r}")
+
+
+def _pa_getitem(eng, st, obj, idx):
+    if not _is_ann_dict(obj):
+        return None
+    p = _key(idx)
+    outs = []
+    for ok, s in eng.branch(st, ann(st)["dom"][p]):
+        outs.append(("ok", s, VFunc("annval", obj, p)) if ok else eng.raise_(s, "KeyError"))
+    return outs
+
+
+def _pa_contains(eng, st, cont, item):
+    if _is_ann_dict(cont):
+        return [("ok", st, VBool(ann(st)["dom"][_key(item)]))]
+    if isinstance(cont, VFunc) and cont.kind == "annval":
+        g, p, x = ann(st), cont.b, _key(item)
+        b, w, j = fresh("member", z3.BoolSort()), fresh("witness", I), qv("mj")
+        arr, n = g["lelem"][p], g["llen"][p]
+        in_list = z3.And(FA([j], z3.Implies(z3.And(0 <= j, j < n, arr[j] == x), b), patterns=[arr[j]]),
+                         z3.Implies(b, z3.And(0 <= w, w < n, arr[w] == x)))
+        # a str value: python's `in` is the substring test
+        return [("ok", st.assume(z3.If(g["isstr"][p], b == SUBSTR(g["sval"][p], x), in_list)), VBool(b))]
+    return None
+
+
+def _pa_isinstance(eng, st, v, clsname):
+    if isinstance(v, VFunc) and v.kind == "annval":
+        return ann(st)["isstr"][v.b] if clsname == "str" else (z3.Not(ann(st)["isstr"][v.b]) if clsname == "list" else False)
+    return None
+
+
+def _pa_list_display(eng, st, vs):
+    if vs and all(isinstance(v, VFunc) and v.kind == "annval" for v in vs):
+        # [annotation[p]] while the value is a string: the list of that string
+        for v in vs:
+            eng.oblige(st, ann(st)["isstr"][v.b], "list-display-of-a-string-value", kind="side")
+        return [("ok", st, VFunc("annlist", tuple(ann(st)["sval"][v.b] for v in vs)))]
+    return None
+
+
+def _pa2_getattr(eng, st, v, name):
+    if isinstance(v, VFunc) and v.kind == "annval" and name == "append":
+        return [("ok", st, VFunc("bound", v, name))]
+    return None
+
+
+def _pa2_call_method(eng, st, recv, name, pos, kw):
+    if isinstance(recv, VFunc) and recv.kind == "annval" and name == "append" and len(pos) == 1:
+        g, p, x = dict(ann(st)), recv.b, _key(pos[0])
+        outs = []
+        for is_str, s in eng.branch(st, g["isstr"][p]):
+            if is_str:
+                outs.append(eng.raise_(s, "AttributeError"))          # str has no append
+                continue
+            n = g["llen"][p]
+            g2 = dict(g, llen=z3.Store(g["llen"], p, n + 1), lelem=z3.Store(g["lelem"], p, z3.Store(g["lelem"][p], n, x)),
+                      posn=z3.Store(g["posn"], p, z3.Store(g["posn"][p], x, n)))
+            cur = s.ghost.get("c10_cur_uri")
+            if cur is not None:
+                g2["wuri"] = z3.Store(g["wuri"], p, z3.Store(g["wuri"][p], x, cur))
+            outs.append(("ok", s.setghost("c10_ann", g2), NONE))
+        return outs
+    if isinstance(recv, VRef) and recv.cls == "CVTerm" and name == "getResourceURI" and len(pos) == 1:
+        outs = eng.apply_contract(st, eng.reg.get("CVTerm.getResourceURI"), [recv] + list(pos), kw)
+        return [(k, s.setghost("c10_cur_uri", v.t) if k == "ok" else s, v) for k, s, v in outs]
+    return None
+
+
+AN_HOOKS = {"setitem": _pa_setitem, "getitem": _pa_getitem, "contains": _pa_contains, "isinstance": _pa_isinstance,
+            "list_display": _pa_list_display, "getattr": _pa2_getattr, "call_method": _pa2_call_method}
+
+
+def _origin(E, g, p, x):
+    sb = E["sbase"].t
+    u = g["wuri"][p][x]
+    return z3.Or(z3.And(p == id_lit("sbo"), SBOSET(sb), x == SBOTERM(sb)),
+                 z3.And(IS_RES(u), RE_M(u), prov_t(u) == p, ident_t(u) == x))
+
+
+def _ann_wf(E, g, min_len=1):
+    """what holds of the dictionary whatever has been processed: every provider present holds at least one identifier; a list has
+    no duplicates (posn is the inverse of lelem); nothing is invented (every identifier held has an origin in the input)"""
+    p, j = qv("ap", Id), qv("aj")
+    lst = z3.And(g["dom"][p], z3.Not(g["isstr"][p]))
+    e = g["lelem"][p][j]
+    return [FA([p], z3.Implies(lst, g["llen"][p] >= min_len), patterns=[g["llen"][p]]),
+            FA([p, j], z3.Implies(z3.And(lst, 0 <= j, j < g["llen"][p]), g["posn"][p][e] == j), patterns=[e]),
+            FA([p], z3.Implies(z3.And(g["dom"][p], g["isstr"][p]), _origin(E, g, p, g["sval"][p])), patterns=[g["sval"][p]]),
+            FA([p, j], z3.Implies(z3.And(lst, 0 <= j, j < g["llen"][p]), _origin(E, g, p, e)), patterns=[e])]
+
+
+def _sbo_clause(E, g):
+    sb = E["sbase"].t
+    return z3.Implies(SBOSET(sb), z3.And(g["dom"][id_lit("sbo")], held(g, id_lit("sbo"), SBOTERM(sb))))
+
+
+def _collected(g, u):
+    return z3.Implies(RE_M(u), z3.And(g["dom"][prov_t(u)], held(g, prov_t(u), ident_t(u))))
+
+
+def _all_upto(E, g, upto):
+    """nothing dropped: every resource of the CV terms 0 .. upto-1 that the pattern matches is held under its provider"""
+    sb, c, k = E["sbase"].t, qv("ac"), qv("ak")
+    u = URI(cvS(sb, c), k)
+    return FA([c, k], z3.Implies(z3.And(0 <= c, c < upto, 0 <= k, k < nRES(cvS(sb, c))), _collected(g, u)), patterns=[u])
+
+
+def _an_inv_outer(E, Lc):
+    g = ann(Lc.st)
+    return z3.And(_all_upto(E, g, Lc.i), _sbo_clause(E, g), *_ann_wf(E, g))
+
+
+def _an_inv_inner(E, Lc):
+    g, g0 = ann(Lc.st), ann(Lc.entry)
+    cv = Lc.var("cvterm").t
+    k, p, j = qv("ik"), qv("ip", Id), qv("ij")
+    u = URI(cv, k)
+    e0 = g0["lelem"][p][j]
+    return z3.And(
+        FA([k], z3.Implies(z3.And(0 <= k, k < Lc.i), _collected(g, u)), patterns=[u]),
+        # monotone: whatever was held when this CV term was started is still held
+        FA([p], z3.Implies(g0["dom"][p], g["dom"][p]), patterns=[g0["dom"][p]]),
+        FA([p], z3.Implies(z3.And(g0["dom"][p], g0["isstr"][p]), held(g, p, g0["sval"][p])), patterns=[g0["sval"][p]]),
+        FA([p, j], z3.Implies(z3.And(g0["dom"][p], z3.Not(g0["isstr"][p]), 0 <= j, j < g0["llen"][p]), held(g, p, e0)), patterns=[e0]),
+        *_ann_wf(E, g))
+
+
+def _an_post(shape_min):
+    def post(E):
+        if not _is_ann_dict(E.res):
+            return z3.BoolVal(False)
+        g, sb = ann(E.s1), E["sbase"].t
+        full = z3.If(CVNONE(sb), z3.BoolVal(True), _all_upto(E, g, nCV(sb)))
+        return z3.And(full, _sbo_clause(E, g), *_ann_wf(E, g, shape_min))
+    return post
+
+
+_AN_LOOPS = lambda: {0: LoopSpec(_an_inv_outer, lambda E, Lc: [("ghost", "c10_ann", _ann_fresh), ("ghost", "c10_cur_uri", lambda st: fresh("cur_uri", Id))]),  # noqa
+                     1: LoopSpec(_an_inv_inner, lambda E, Lc: [("ghost", "c10_ann", _ann_fresh), ("ghost", "c10_cur_uri", lambda st: fresh("cur_uri", Id))])}
+_AN_MOD = lambda E: [("ghost", "c10_ann", _ann_fresh), ("ghost", "c10_cur_uri", lambda st: fresh("cur_uri", Id))]  # noqa
+# wired: a provider present holds >= 1 identifier (string, or list without duplicates), nothing dropped, nothing invented
+REG.add(Contract(MS, "_parse_annotations", "C10", [("sbase", TRef("SBase"))], [Case("any", ensures=_an_post(1))],
+                 key="_parse_annotations", loops=_AN_LOOPS(), modifies=_AN_MOD))
+# NOT wired: "a single string for one identifier, a list for several" - a list always has >= 2 elements
+REG.add(Contract(MS, "_parse_annotations", "C10", [("sbase", TRef("SBase"))], [Case("any", ensures=_an_post(2))],
+                 key="_parse_annotations@single-string-for-one", loops=_AN_LOOPS(), modifies=_AN_MOD))
+AN_KEYS = ["_parse_annotation_info", "_parse_annotations"]
+FINDING_KEYS.append("_parse_annotations@single-string-for-one")
+ANN_HOOKS = chain_hooks(AN_HOOKS, PI_HOOKS)
